@@ -28,11 +28,17 @@ CLAIMED = {
  "C03": dict(
    text="Lean theorems for reduction: get_utilized_commands marks exactly the reachable rows, reduce_stack's output has that many rows, is well-formed, fully utilized and "
         "evaluates identically for every scalar type (reduce_eval*, unused_irrelevant*), AGraph._update's renumbering yields a backend-well-formed stack. "
-        "CAS: validated by oracle only in this round (80-digit differential evaluation on constant-free stacks incl. constants-as-variables, well-formedness, "
-        "constant count, termination watchdog) and, once the Lean port is linked, exact output correspondence; CAS soundness is NOT yet a theorem.",
-   note=COMMON_NOTE + "CAS soundness/termination are validated-only; known finding F3b (int64 wrap) in known_findings.json.",
-   technique="Lean 4 proof (loop invariants of utilized/reduce, simulation of evaluation) + exact correspondence; differential oracle for the CAS",
-   design="5/C03"),
+        "Lean theorems for the algebraic simplifier (Props/C03Cas.lean) over an executable port of the whole CAS with a partial real semantics and the refinement order "
+        "'defined => defined and equal': on the fragment in which every POWER has an integer-literal exponent (it contains every stack without power operators) all eight mutually "
+        "recursive functions of automatic_simplification.py, quotient/difference/logarithm/dispatch, optional modifications and constant grouping are sound (automaticSimplify_sound, "
+        "*_sound), both directions of the stack<->expression interpreter incl. 'the root is the last row despite sharing' (buildCas_den, root_is_last, interp_den), no new constant or "
+        "variable ids (simp_consts_le), well-formed output (simp_wf), fuel monotonicity, and end to end: a constant-free power-free stack is preserved wherever it is defined "
+        "(simplify_stack_sound_noconst_partial). Tie: exact output correspondence of reduce_stack / _update / simplify_stack with the Lean port on every run; oracle: 80-digit evaluation "
+        "before/after (constants kept for automatic_simplify, constants as variables for the whole pipeline).",
+   note=COMMON_NOTE + "NOT theorems (kept as `def ... : Prop`, validated by the oracle): soundness with real-exponent powers ('agree where both are finite'), the witness for constant folding "
+        "(the pipeline theorem with constants is relative to folding being a reparametrisation), termination (watchdog). The proof attempts found and led to the repair of F18 and F19.",
+   technique="Lean 4 proof (loop invariants of utilized/reduce; fuel induction over the mutually recursive simplifier with a refinement order) + exact correspondence with the Lean port; differential oracle for the unproved clauses",
+   design="5/C03, 12.2"),
  "C10": dict(
    text="Lean theorems over verbatim models of HallOfFame/ParetoFront (bisect_right included): after any sequence of updates the keys are the m smallest non-NaN keys ever "
         "offered, sorted, ties in arrival order, never NaN (exact, sorted_stable, no_nan, update_some); the Pareto front is exactly the non-dominated set of everything "
@@ -159,10 +165,25 @@ CLAIMED = {
         "mutate_wf), draws are consumed as a prefix within the requested bounds, and the EXACT condition under which each rejection loop can ever exit (commandLoop_progress_closed, "
         "nodeLoop_progress_closed, command_stuck, node_stuck): termination 'for every valid configuration' is false exactly on those degenerate configurations (known finding F7). "
         "Tie: draw logging -- the real code's draws are replayed in the model: identical children and draw counts, out-of-draws exactly on hangs; oracle on real objects for size, references, "
-        "operators, evaluability, parents intact, ages, evaluated flag.",
-   note=COMMON_NOTE + "Random draws are oracle inputs at the API level bingo calls (PMF index, randint, choice position); ages and the fit_set flag are checked on the real objects only.",
+        "operators, evaluability, parents intact, ages, evaluated flag, child behaves as a fresh equation with its stack. Object level: the bodies of AGraphCrossover.__call__ / "
+        "AGraphMutation.__call__ are REGENERATED as op lists and interpreted over the AGraph object model: children get the larger parental age and are marked not evaluated "
+        "(crossover_children), a mutant keeps its parent's age and is marked not evaluated as soon as one store happened (mutation_child), every store in mutation.py/crossover.py goes "
+        "through the mutable view (gen_variation_ok).",
+   note=COMMON_NOTE + "Random draws are oracle inputs at the API level bingo calls (PMF index, randint, choice position); 'parents intact' is checked on the real objects (the model functions are pure).",
    technique="Lean 4 proof (post-conditions over a draw-consuming monad, exact progress characterisation) + exact correspondence under logged draws",
    design="5/C04"),
+ "C16": dict(
+   text="Lean theorems over an executable port of string_generation.py / string_parsing.py (tables REGENERATED from the source and pinned): for ALL postfix token lists the command array "
+        "returned denotes the value a reference stack machine computes and the root is the last row despite sharing (postfix_sound, root_is_last, postfix_wf); shunting-yard is correct on "
+        "the whole precedence grammar without unary minus (shunting_yard_grammar) and the tokens of every printed tree lie in it (shunting_yard_sympy); printing in the sympy format and "
+        "parsing back preserves the real function at tree, stack and STRING level, character-level tokenizer included (roundtrip_tree, roundtrip_stack, format_eq_tree, tokenize_sympyStr, "
+        "roundtrip_format). Tie: exact correspondence of strings, token lists, postfix lists, command arrays and constants between the real printer/parser and the port (generated, sympy, "
+        "malformed and exhaustive small inputs); the theorems' hypotheses on constant strings are checked against Python's str() of every constant used; oracle: 80-digit evaluation of "
+        "round trips and of sympy strings against sympy's own values.",
+   note=COMMON_NOTE + "'Evaluates identically' is identity of real functions (the printer does not parenthesise + chains, the parser re-associates them). Modelled: Python float()/repr() (abstract "
+        "`val`, decimal-literal predicate), ASCII input. Known findings: F11a (literal constants rebound after simplification on the parsing side), F11b ('-2**x'), F3b through strings.",
+   technique="Lean 4 proof (invariant of the postfix loop, shunting-yard on a precedence grammar, structural induction for printer/tokenizer) over tables regenerated from source + exact correspondence",
+   design="5/C16, 12.2"),
 }
 
 REASONS = {p: "check not built yet in this round (planned, see DESIGN.md section 11)" for p in PROPS}
